@@ -524,6 +524,47 @@ def judge_pair(b, p, q, label, frames, cj):
     return False
 
 
+def block_to_block_pairs(b, n):
+    """convert_records steps whose record map has BOTH an incoming and an outgoing block layout: p and q differ in one
+    of the two layouts only (the shared generator draws one-sided maps)"""
+    from data_algebra.view_representations import TableDescription
+    from vf.gen import records as RG
+
+    rng = b.rng
+    for _ in range(n):
+        spec1 = RG.gen_spec(rng)
+        names = RG.content_names(spec1)
+        spec2 = RG.gen_spec(rng, tag="b", content=names, n_record_keys=len(spec1["record_keys"]))
+        if spec2 is None:
+            continue
+        which = rng.choice(["out", "in"])
+        s1m, s2m = copy.deepcopy(spec1), copy.deepcopy(spec2)
+        tgt = s2m if which == "out" else s1m
+        nk = len(tgt["control_table_keys"])
+        rows_ct = tgt["control_table"]["rows"]
+        how = rng.choice(["content-swapped", "key-cell"])
+        if how == "content-swapped" and len(rows_ct) > 1 and rows_ct[0][nk] != rows_ct[1][nk]:
+            rows_ct[0][nk], rows_ct[1][nk] = rows_ct[1][nk], rows_ct[0][nk]
+        else:
+            how = "key-cell"
+            rows_ct[0][0] = str(rows_ct[0][0]) + "_x"
+        label = f"record-map-block-to-block:{which}-layout-{how}"
+        rows = RG.gen_rowrecs(rng, spec1)
+        X = RG.to_frame(RG.ref_unpivot(rows, spec1), RG.block_columns(spec1))
+        try:
+            t = TableDescription(table_name="X", column_names=RG.block_columns(spec1))
+            p = t.convert_records(B.build_record_map({"blocks_in": spec1, "blocks_out": spec2, "strict": True}))
+            q = t.convert_records(B.build_record_map({"blocks_in": s1m, "blocks_out": s2m, "strict": True}))
+        except Exception as ex:
+            b.count("block_to_block_not_built", type(ex).__name__)
+            continue
+        b.evaluation()
+        b.count("mutations", label)
+        cj = {"spec_in": spec1, "spec_out": spec2, "mutated_in": s1m, "mutated_out": s2m, "mutation": label}
+        if not judge_pair(b, p, q, label, {"X": X}, cj):
+            b.sig(f"{label}|convert_records|{'eq' if p == q else 'ne'}")
+
+
 def run_batch(seed, batch, tier):
     monitors.install()
     b = Batch(PID, seed, batch, tier)
@@ -616,6 +657,11 @@ def run_batch(seed, batch, tier):
             b.count("case_timeout")
         except Exception as ex:
             b.count("harness_error", type(ex).__name__ + ":" + str(ex)[:100])
+    try:
+        with time_limit(120):
+            block_to_block_pairs(b, max(10, (N[tier] // NB[tier]) // 5))
+    except CaseTimeout:
+        b.count("case_timeout")
     return b.result()
 
 
